@@ -71,6 +71,25 @@ def mechanism(expected, got):
     return "%s signature accepted for %s" % (fg, fe)
 
 
+def blob_type(blob):
+    (t,), _ = sshsig.read_strings(blob, 1)
+    return t.decode("ascii", "replace")
+
+
+def blob_alg(blob):
+    """Algorithm family name a key blob belongs to, comparable with mechanism()."""
+    return base_alg(blob_type(blob))
+
+
+def blob_matches(alg, blob):
+    """Is the key blob of the type the algorithm name `alg` stands for?  (every rsa-* name uses ssh-rsa
+    blobs; certificate-vs-plain is not judged: it does not change the signature algorithm)"""
+    bt = blob_alg(blob)
+    if family(alg) == "rsa":
+        return bt == "ssh-rsa"
+    return bt == base_alg(alg)
+
+
 # ---- key material --------------------------------------------------------------------------
 _certs = {}
 
@@ -197,7 +216,20 @@ def client_case(ctx, desc, server_keys, client_types, disabled, kex, lie_at=0, s
             return
         mismatch = sig_name != base_alg(neg)
         dis = sig_name in disabled
-        if mismatch or dis:
+        wrong_blob = not blob_matches(neg, ks)
+        if wrong_blob and not mismatch:
+            # label equals the negotiated algorithm, but the key shown is of another type
+            ctx.count("client.hostile_signatures_judged")
+            ctx.count("client.blob_mismatch_judged")
+            if accepted:
+                real = blob_alg(ks)
+                ctx.violation("client completed kex with a host key blob that is not of the negotiated algorithm (%s)%s"
+                              % (mechanism(neg, real), " with that algorithm disabled" if real in disabled else ""),
+                              "client negotiated %s, the reply carried a %s key and a signature labelled %s: accepted"
+                              % (neg, real, sig_name), wit)
+            else:
+                ctx.count("client.hostile_signatures_rejected")
+        elif mismatch or dis:
             ctx.count("client.hostile_signatures_judged")
             if accepted:
                 sigtxt = "client completed kex with reply signature algorithm != negotiated host key algorithm (%s)%s" % (
@@ -245,6 +277,15 @@ def client_cases(ctx):
                      ("ecdsa-sha2-nistp521", "ssh-ed25519"), ("ssh-ed25519", "ssh-rsa"),
                      ("ssh-ed25519", "rsa-sha2-512"), ("ssh-ed25519", "ecdsa-sha2-nistp256")):
         add(kind="relabel", shape="plain", N=N, A=label, disabled=())
+    # key of another type, signature made by it but labelled with the negotiated name (only the blob disagrees)
+    for N in ECDSA:
+        for Y in ECDSA:
+            if Y != N:
+                for d in ((), (Y,)):
+                    add(kind="blob", shape="plain", N=N, A=Y, disabled=d)
+    for N, Y in (("ssh-ed25519", "rsa-sha2-256"), ("rsa-sha2-512", "ssh-ed25519"), ("ecdsa-sha2-nistp256", "ssh-ed25519"),
+                 ("ssh-ed25519", "ecdsa-sha2-nistp384"), ("rsa-sha2-256", "ecdsa-sha2-nistp256")):
+        add(kind="blob", shape="plain", N=N, A=Y, disabled=())
     # key and signature of another family under the negotiated name
     for N, Y in (("rsa-sha2-512", "ssh-ed25519"), ("ssh-ed25519", "rsa-sha2-256"), ("ecdsa-sha2-nistp256", "ssh-ed25519"),
                  ("ssh-rsa", "ecdsa-sha2-nistp256"), ("ssh-ed25519", "ecdsa-sha2-nistp521")):
@@ -286,6 +327,10 @@ def run_client_case(ctx, c, kex, lie_at, sample):
     elif kind == "family":
         key = EvilHostKey(kexlab.hostkey(A), lambda i, r, _A=A: dict(sign_as=_A) if family(_A) == "rsa" else None)
         lie_at = 0
+    elif kind == "blob":
+        key = EvilHostKey(kexlab.hostkey(A), lambda i, r, _A=A, _N=N: dict(sign_as=_A if family(_A) == "rsa" else None,
+                                                                             label=base_alg(_N)))
+        lie_at = 0
     else:
         raise ValueError(kind)
     # the client offers the algorithm it wants first, then the other enabled ones of the family
@@ -294,7 +339,7 @@ def run_client_case(ctx, c, kex, lie_at, sample):
     else:
         types = [N] + [x for x in (RSA if family(N) == "rsa" else ()) if x != N and x not in disabled]
     client_case(ctx, desc, {wire_name: key}, types, disabled, kex, lie_at=lie_at, sample=sample,
-                positive=(kind == "honest" or A == N))
+                positive=(kind == "honest" or (A == N and kind != "blob")))
 
 
 # ---- server side -------------------------------------------------------------------------------
@@ -373,7 +418,21 @@ def server_case(ctx, desc, declared, keyblob, sign, expect_name, disabled, kex, 
                    server_replies=got, authenticated=a.victim.is_authenticated())
         mismatch = name != base_alg(declared)
         dis = name in disabled or base_alg(declared) in disabled
-        if mismatch or dis:
+        wrong_blob = not blob_matches(declared, keyblob)
+        if wrong_blob and not mismatch and not dis:
+            # the label equals the declared algorithm, but the key carried is of another type
+            ctx.count("server.hostile_requests_judged")
+            ctx.count("server.blob_mismatch_requests_judged")
+            if success or a.victim.is_authenticated():
+                real = blob_alg(keyblob)
+                ctx.violation("server sent USERAUTH_SUCCESS for a publickey request whose key blob is not of the declared "
+                              "algorithm (%s)%s" % (mechanism(declared, real),
+                                                    " with that algorithm disabled" if real in disabled else ""),
+                              "request declared %s and carried a %s key; signature made by that key, labelled %s: "
+                              "authenticated" % (declared, real, name), wit)
+            else:
+                ctx.count("server.hostile_requests_rejected")
+        elif mismatch or dis:
             ctx.count("server.hostile_requests_judged")
             if success or a.victim.is_authenticated():
                 if mismatch:
@@ -422,6 +481,17 @@ def server_cases():
     for D, Y in (("ssh-ed25519", "rsa-sha2-256"), ("rsa-sha2-512", "ssh-ed25519"), ("ssh-rsa", "ecdsa-sha2-nistp256"),
                  ("ecdsa-sha2-nistp384", "ssh-ed25519")):
         add(kind="family", D=D, A=Y, disabled=())
+    # (declared, key blob, label) where only the key blob disagrees: signature made by the carried key,
+    # labelled with the declared algorithm
+    for D in ECDSA:
+        for Y in ECDSA:
+            if Y != D:
+                for d in ((), (Y,)):
+                    add(kind="blob", D=D, A=Y, disabled=d)
+    for D, Y in (("ssh-ed25519", "rsa-sha2-256"), ("rsa-sha2-512", "ssh-ed25519"), ("ecdsa-sha2-nistp256", "ssh-ed25519"),
+                 ("ssh-ed25519", "ecdsa-sha2-nistp384"), ("rsa-sha2-256", "ecdsa-sha2-nistp256"),
+                 ("ecdsa-sha2-nistp521", "ssh-rsa")):
+        add(kind="blob", D=D, A=Y, disabled=())
     for D in kexlab.HOSTALGS + ("ecdsa-sha2-nistp256" + CERT, "ssh-ed25519" + CERT):
         if family(D) != "rsa":
             add(kind="honest", D=D, A=base_alg(D), disabled=())
@@ -448,7 +518,10 @@ def run_server_case(ctx, c, kex, shape, sample):
         pk = kexlab.hostkey(A, 1 if family(A) == "rsa" else 0)
         blob = pk.asbytes()
         signer = raw_signer(pk)
-        sign = lambda data: signer(data, A if family(A) == "rsa" else None)
+        if kind == "blob":
+            sign = lambda data: signer(data, A if family(A) == "rsa" else None, base_alg(D))
+        else:
+            sign = lambda data: signer(data, A if family(A) == "rsa" else None)
     positive = kind == "honest" or (kind == "rsa" and A == base_alg(D) and A not in disabled)
     r = server_case(ctx, desc, D, blob, sign, A, disabled, kex, shape, sample, positive=positive)
     if r == "retry-direct":
@@ -670,6 +743,8 @@ def run(ctx):
     ctx.require("server.multi_request_sessions", 60)
     ctx.require("server.requests_after_a_prior_request_for_the_same_key", 40)
     ctx.require("server.multi_positive_controls_accepted", 10)
+    ctx.require("client.blob_mismatch_judged", 10)
+    ctx.require("server.blob_mismatch_requests_judged", 10)
     ctx.require("client.replies_judged", 60)
     ctx.require("client.hostile_signatures_judged", 45)
     ctx.require("client.positive_controls_accepted", 10)
